@@ -560,11 +560,18 @@ func GenOK(r *vf.Rand, n int) []int {
 	ok := []int{}
 
 	switch k := r.Intn(100); {
-	case k < 18:
+	case k < 15:
 		for i := 1; i <= n; i++ {
 			ok = append(ok, i)
 		}
-	case k < 30:
+	case k < 25:
+	case k < 45: // one or two acceptable values only: long chains of failed candidates
+		ok = append(ok, r.Range(1, n))
+		if r.Bool() {
+			if j := r.Range(1, n); j != ok[0] {
+				ok = append(ok, j)
+			}
+		}
 	default:
 		p := vf.Pick(r, []int{25, 50, 75, 90})
 		for i := 1; i <= n; i++ {
@@ -963,10 +970,15 @@ func Corpus() []Case {
 
 type Rule struct {
 	ID      int      `json:"id"`
-	Bt      bool     `json:"bt"`
+	Bt      bool     `json:"bt"` // the flag in force for the rule (own setting, else the default rule's, else off)
 	Routes  []string `json:"routes"`
 	Methods []string `json:"methods"` // empty = any method
 	E       []*Expr  `json:"-"`
+	// stream "processor" only: how the rule is written
+	Ver     int    `json:"ver,omitempty"`      // stream "history": a change of the definition that no lookup can see
+	BtUnset bool   `json:"bt_unset,omitempty"` // backtracking_enabled absent: inherited
+	Scheme  string `json:"scheme,omitempty"`   // "" = any
+	Host    string `json:"host,omitempty"`     // "" = any, else one exact host
 }
 
 type RuleSet struct {
@@ -977,6 +989,8 @@ type RuleSet struct {
 type RepoLookup struct {
 	Path   string   `json:"path"`
 	Method string   `json:"method"`
+	Scheme string   `json:"scheme,omitempty"`
+	Host   string   `json:"host,omitempty"`
 	Table  []int    `json:"table"`   // rule ids the stub condition accepts
 	UseRaw bool     `json:"use_raw"` // the path is handed over in URL.RawPath (URL.Path holds a decoy)
 	OK     []int    `json:"ok"`      // rule ids whose conditions hold: method admitted and in the table
@@ -985,10 +999,11 @@ type RepoLookup struct {
 }
 
 type RepoCase struct {
-	Default bool         `json:"default"`
-	Names   []string     `json:"names"` // Names[id-1]: the rule's id string (NOT monotone in load order)
-	Sets    []RuleSet    `json:"sets"`
-	Lookups []RepoLookup `json:"lookups"`
+	Default   bool         `json:"default"`
+	DefaultBt bool         `json:"default_bt,omitempty"` // stream "processor": the default rule's backtracking_enabled
+	Names     []string     `json:"names"`                // Names[id-1]: the rule's id string (NOT monotone in load order)
+	Sets      []RuleSet    `json:"sets"`
+	Lookups   []RepoLookup `json:"lookups"`
 }
 
 // Name of rule id: ids as real deployments have them, arbitrary strings.
@@ -1050,6 +1065,9 @@ type RepoObs struct {
 	Sets    []bool   `json:"sets"`    // AddRuleSet accepted?
 	Lookups []string `json:"lookups"` // "rule:<id>", "default", "norule", "other:<text>"
 	Panic   string   `json:"panic,omitempty"`
+	// the same rule sets loaded in reverse order into a second repository (only if both orders accept all)
+	TwinChecked  bool  `json:"twin_checked,omitempty"`
+	TwinMismatch []int `json:"twin_mismatch,omitempty"` // lookups answered differently by the twin
 }
 
 var repoMethods = []string{"GET", "POST", "PUT", "DELETE"}
@@ -1075,6 +1093,7 @@ func GenRepo(r *vf.Rand) RepoCase {
 	)
 
 	c.Default = r.Bool()
+	usedBy := map[string]int{}
 	nSets := vf.Pick(r, []int{1, 1, 2, 2, 3, 3, 4, 5})
 	pBt := vf.Pick(r, []int{20, 50, 50, 80})
 	id := 0
@@ -1104,6 +1123,15 @@ func GenRepo(r *vf.Rand) RepoCase {
 
 				if !e.Valid() && r.Chance(80) {
 					e = GenFresh(r)
+				}
+
+				// an expression of another rule set rejects this whole set: keep that at a few per cent
+				if other, ok := usedBy[e.String()]; ok && other != s && r.Chance(85) {
+					e = GenFresh(r)
+				}
+
+				if _, ok := usedBy[e.String()]; !ok {
+					usedBy[e.String()] = s
 				}
 
 				pool = append(pool, e)
@@ -1188,7 +1216,12 @@ func RepoCoq(c RepoCase, o RepoObs) string {
 	for i, l := range c.Lookups {
 		res := "(ORule 0%nat)" // a missing / unexpected answer never equals a model answer: ids start at 1
 
-		if i < len(o.Lookups) {
+		twinBad := false
+		for _, j := range o.TwinMismatch {
+			twinBad = twinBad || j == i
+		}
+
+		if i < len(o.Lookups) && !twinBad { // an order-dependent answer is rendered as the impossible one
 			switch {
 			case o.Lookups[i] == "default":
 				res = "ODefault"
@@ -1257,6 +1290,10 @@ func RepoClassify(c RepoCase, o RepoObs) (bool, []string) {
 	}
 
 	tags = append(tags, "sets:"+Bucket(len(c.Sets)), fmt.Sprintf("default:%v", c.Default))
+
+	if o.TwinChecked {
+		tags = append(tags, "twin:reverse-order-load-compared")
+	}
 
 	for i := range c.Sets {
 		if i < len(o.Sets) && !o.Sets[i] {
@@ -1363,4 +1400,502 @@ func FillOK(c *RepoCase) {
 			}
 		}
 	}
+}
+
+// ---- stream "processor": rule sets as configuration through the real rule-set processor and factory ----
+
+func condOK(ru Rule, l RepoLookup) bool {
+	return methodOK(ru.Methods, l.Method) && (ru.Scheme == "" || ru.Scheme == l.Scheme) && (ru.Host == "" || ru.Host == l.Host)
+}
+
+// GenProc: a repo case whose rules are written as configuration: backtracking_enabled
+// present or inherited from the default rule, scheme / host / method conditions.
+func GenProc(r *vf.Rand) RepoCase {
+	c := GenRepo(r)
+	c.DefaultBt = c.Default && r.Bool()
+
+	for i := range c.Sets {
+		for j := range c.Sets[i].Rules {
+			ru := &c.Sets[i].Rules[j]
+
+			if r.Chance(40) {
+				ru.BtUnset = true
+				ru.Bt = c.DefaultBt // no default rule: off
+			}
+
+			if r.Chance(25) {
+				ru.Scheme = vf.Pick(r, []string{"http", "https"})
+			}
+
+			if r.Chance(25) {
+				ru.Host = vf.Pick(r, []string{"a.example", "b.example"})
+			}
+		}
+	}
+
+	for i := range c.Lookups {
+		l := &c.Lookups[i]
+		l.Scheme = vf.Pick(r, []string{"http", "https"})
+		l.Host = vf.Pick(r, []string{"a.example", "b.example"})
+		l.UseRaw = false
+		l.Modes, l.Needle, l.Table = nil, "", nil
+		l.OK = []int{}
+
+		for _, rs := range c.Sets {
+			for _, ru := range rs.Rules {
+				if condOK(ru, *l) {
+					l.OK = append(l.OK, ru.ID)
+				}
+			}
+		}
+	}
+
+	return c
+}
+
+func ProcCorpus() []RepoCase {
+	f := false
+	_ = f
+	cs := []RepoCase{
+		{ // the rule's own backtracking_enabled: false wins over a default rule that allows it; an unset one inherits
+			Default: true, DefaultBt: true,
+			Sets: []RuleSet{{Src: 1, Rules: []Rule{
+				{ID: 1, Bt: false, Routes: []string{"/a/:x"}, Methods: []string{"GET"}, E: []*Expr{Parse("/a/:x")}},
+				{ID: 2, Bt: true, BtUnset: true, Routes: []string{"/b/:x"}, Methods: []string{"GET"}, E: []*Expr{Parse("/b/:x")}},
+				{ID: 3, Bt: true, Routes: []string{"/:y/:z", "/c/"}, E: []*Expr{Parse("/:y/:z"), Parse("/c/")}},
+			}}},
+			Lookups: []RepoLookup{
+				{Path: "/a/1", Method: "POST", Scheme: "http", Host: "a.example"},
+				{Path: "/b/1", Method: "POST", Scheme: "http", Host: "a.example"},
+				{Path: "/c/", Method: "POST", Scheme: "http", Host: "a.example"},
+				{Path: "/c", Method: "POST", Scheme: "http", Host: "a.example"},
+			},
+		},
+		{ // no default rule: an unset flag is off
+			Default: false,
+			Sets: []RuleSet{{Src: 1, Rules: []Rule{
+				{ID: 1, Bt: false, BtUnset: true, Routes: []string{"/a/:x"}, Scheme: "https", E: []*Expr{Parse("/a/:x")}},
+				{ID: 2, Bt: true, Routes: []string{"/:y/:z"}, Host: "b.example", E: []*Expr{Parse("/:y/:z")}},
+			}}},
+			Lookups: []RepoLookup{
+				{Path: "/a/1", Method: "GET", Scheme: "http", Host: "b.example"},
+				{Path: "/a/1", Method: "GET", Scheme: "https", Host: "a.example"},
+				{Path: "/q/1", Method: "GET", Scheme: "http", Host: "b.example"},
+				{Path: "/q/1", Method: "GET", Scheme: "http", Host: "a.example"},
+			},
+		},
+	}
+
+	for i := range cs {
+		for j := range cs[i].Lookups {
+			l := &cs[i].Lookups[j]
+			l.OK = []int{}
+
+			for _, rs := range cs[i].Sets {
+				for _, ru := range rs.Rules {
+					if condOK(ru, *l) {
+						l.OK = append(l.OK, ru.ID)
+					}
+				}
+			}
+		}
+	}
+
+	return cs
+}
+
+// ---- stream "history": create / update / delete of rule sets, then lookups -------------------
+
+type HistOp struct {
+	Kind  string `json:"kind"` // create | update | delete
+	Src   int    `json:"src"`
+	Rules []Rule `json:"rules,omitempty"`
+	Edits string `json:"edits,omitempty"` // how an update was derived (for the histogram)
+}
+
+type HistCase struct {
+	Default bool         `json:"default"`
+	Names   []string     `json:"names"`
+	Ops     []HistOp     `json:"ops"`
+	Lookups []RepoLookup `json:"lookups"`
+}
+
+type HistObs struct {
+	Ops     []bool   `json:"ops"`   // accepted?
+	Same    [][]bool `json:"same"`  // per update, per rule: a loaded rule of that set has this id (SameAs)
+	Equal   [][]bool `json:"equal"` // ... and the same definition hash (EqualTo)
+	Lookups []string `json:"lookups"`
+	Panic   string   `json:"panic,omitempty"`
+}
+
+func (c HistCase) Name(id int) string { return RepoCase{Names: c.Names}.Name(id) }
+func (c HistCase) IDOf(n string) int  { return RepoCase{Names: c.Names}.IDOf(n) }
+
+func cloneRules(rs []Rule) []Rule {
+	out := make([]Rule, len(rs))
+	for i, r := range rs {
+		out[i] = r
+		out[i].Routes = append([]string(nil), r.Routes...)
+		out[i].E = append([]*Expr(nil), r.E...)
+		out[i].Methods = append([]string(nil), r.Methods...)
+	}
+
+	return out
+}
+
+func GenHist(r *vf.Rand) HistCase {
+	var (
+		c    HistCase
+		pool []Expr
+		id   int
+	)
+
+	c.Default = r.Bool()
+	cur := map[int][]Rule{}
+	pBt := vf.Pick(r, []int{20, 50, 50, 80})
+
+	newExpr := func(local []Expr) Expr {
+		var e Expr
+
+		switch {
+		case len(local) > 0 && r.Chance(45): // siblings on one expression inside the set
+			e = CloneExpr(vf.Pick(r, local))
+		case len(pool) > 0 && r.Chance(60):
+			e = GenRelated(r, pool)
+		default:
+			e = GenFresh(r)
+		}
+
+		if !e.Valid() {
+			e = GenFresh(r)
+		}
+
+		if !e.Valid() {
+			e = Expr{Lead: true, Segs: []Seg{{Kind: Static, Lit: "a", Raw: "a"}}}
+		}
+
+		pool = append(pool, e)
+
+		return e
+	}
+
+	newRule := func(local *[]Expr) Rule {
+		id++
+		ru := Rule{ID: id, Bt: r.Chance(pBt)}
+
+		for j, n := 0, vf.Pick(r, []int{1, 1, 1, 2, 2, 3}); j < n; j++ {
+			e := newExpr(*local)
+			*local = append(*local, e)
+			ec := e
+			ru.Routes = append(ru.Routes, e.String())
+			ru.E = append(ru.E, &ec)
+		}
+
+		switch r.Intn(3) {
+		case 0:
+		case 1:
+			ru.Methods = []string{vf.Pick(r, repoMethods)}
+		default:
+			for _, m := range repoMethods {
+				if r.Bool() {
+					ru.Methods = append(ru.Methods, m)
+				}
+			}
+		}
+
+		return ru
+	}
+
+	localOf := func(rs []Rule) []Expr {
+		var out []Expr
+
+		for _, ru := range rs {
+			for _, e := range ru.E {
+				out = append(out, *e)
+			}
+		}
+
+		return out
+	}
+
+	nextSrc := 0
+	nOps := r.Range(2, 7)
+
+	for len(c.Ops) < nOps {
+		loaded := []int{}
+		for s := 1; s <= nextSrc; s++ {
+			if _, ok := cur[s]; ok {
+				loaded = append(loaded, s)
+			}
+		}
+
+		k := r.Intn(100)
+
+		switch {
+		case len(loaded) == 0 || (k < 22 && nextSrc < 4):
+			nextSrc++
+
+			var (
+				rs    []Rule
+				local []Expr
+			)
+
+			for j, n := 0, vf.Pick(r, []int{1, 2, 2, 3, 3, 4}); j < n; j++ {
+				rs = append(rs, newRule(&local))
+			}
+
+			cur[nextSrc] = rs
+			c.Ops = append(c.Ops, HistOp{Kind: "create", Src: nextSrc, Rules: cloneRules(rs)})
+		case k < 88:
+			s := vf.Pick(r, loaded)
+			rs := cloneRules(cur[s])
+			local := localOf(rs)
+			edits := ""
+
+			for e, n := 0, r.Range(1, 3); e < n; e++ {
+				switch r.Intn(8) {
+				case 0, 1: // only the definition changes (what C06-F1 needs)
+					if len(rs) > 0 {
+						rs[r.Intn(len(rs))].Ver++
+						edits += "V"
+					}
+				case 2:
+					if len(rs) > 0 {
+						i := r.Intn(len(rs))
+						rs[i].Bt = !rs[i].Bt
+						edits += "B"
+					}
+				case 3:
+					if len(rs) > 1 {
+						i, j := r.Intn(len(rs)), r.Intn(len(rs))
+						rs[i], rs[j] = rs[j], rs[i]
+						edits += "S"
+					}
+				case 4:
+					if len(rs) > 1 {
+						i := r.Intn(len(rs))
+						rs = append(rs[:i], rs[i+1:]...)
+						edits += "D"
+					}
+				case 5:
+					rs = append(rs, newRule(&local))
+					edits += "N"
+				case 6:
+					if len(rs) > 0 {
+						i := r.Intn(len(rs))
+						e := newExpr(local)
+						local = append(local, e)
+						ec := e
+						rs[i].Routes = append([]string(nil), e.String())
+						rs[i].E = []*Expr{&ec}
+						edits += "R"
+					}
+				default:
+					edits += "-"
+				}
+			}
+
+			cur[s] = rs
+			c.Ops = append(c.Ops, HistOp{Kind: "update", Src: s, Rules: cloneRules(rs), Edits: edits})
+		default:
+			s := vf.Pick(r, loaded)
+			delete(cur, s)
+			c.Ops = append(c.Ops, HistOp{Kind: "delete", Src: s})
+		}
+	}
+
+	c.Names = GenNames(r, id)
+
+	valid := make([]Expr, 0, len(pool))
+	for _, e := range pool {
+		if e.Valid() {
+			valid = append(valid, e)
+		}
+	}
+
+	methods := map[int][]string{}
+
+	for _, op := range c.Ops {
+		for _, ru := range op.Rules {
+			methods[ru.ID] = ru.Methods // fixed for the life of an id
+		}
+	}
+
+	for _, l := range GenLookups(r, valid, id, r.Range(8, 18)) {
+		rl := RepoLookup{Path: l.Path, Method: vf.Pick(r, repoMethods), OK: []int{}}
+
+		for i := 1; i <= id; i++ {
+			if methodOK(methods[i], rl.Method) {
+				rl.OK = append(rl.OK, i)
+			}
+		}
+
+		c.Lookups = append(c.Lookups, rl)
+	}
+
+	return c
+}
+
+func coqRule(ru Rule) string {
+	return vf.CoqApp("rd", vf.CoqNat(ru.ID), vf.CoqBool(ru.Bt), vf.CoqStrs(ru.Routes))
+}
+
+func HistCoq(c HistCase, o HistObs) string {
+	ops := make([]string, len(c.Ops))
+
+	for i, op := range c.Ops {
+		acc := vf.CoqBool(i < len(o.Ops) && o.Ops[i])
+
+		switch op.Kind {
+		case "create":
+			ops[i] = vf.CoqApp("HCreate", vf.CoqNat(op.Src), vf.CoqListOf(op.Rules, coqRule), acc)
+		case "update":
+			rs := make([]string, len(op.Rules))
+			for j, ru := range op.Rules {
+				same, equal := false, false
+				if i < len(o.Same) && j < len(o.Same[i]) {
+					same, equal = o.Same[i][j], o.Equal[i][j]
+				}
+
+				rs[j] = vf.CoqApp("hr", coqRule(ru), vf.CoqBool(same), vf.CoqBool(equal))
+			}
+
+			ops[i] = vf.CoqApp("HUpdate", vf.CoqNat(op.Src), vf.CoqList(rs), acc)
+		default:
+			ops[i] = vf.CoqApp("HDelete", vf.CoqNat(op.Src), acc)
+		}
+	}
+
+	rc := RepoCase{Names: c.Names, Lookups: c.Lookups}
+	lks := make([]string, len(c.Lookups))
+
+	for i, l := range c.Lookups {
+		res := "(ORule 0%nat)"
+
+		if i < len(o.Lookups) {
+			switch {
+			case o.Lookups[i] == "default":
+				res = "ODefault"
+			case o.Lookups[i] == "norule":
+				res = "ONoRule"
+			case strings.HasPrefix(o.Lookups[i], "rule:"):
+				res = "(ORule " + vf.CoqNat(rc.IDOf(strings.TrimPrefix(o.Lookups[i], "rule:"))) + ")"
+			}
+		}
+
+		lks[i] = vf.CoqApp("rl", vf.CoqStr(l.Path), CoqNats(l.OK), CoqModes(l.Modes), vf.CoqStr(l.Needle), res)
+	}
+
+	return vf.CoqApp("hc", vf.CoqBool(c.Default), vf.CoqList(ops), vf.CoqList(lks))
+}
+
+func HistClassify(c HistCase, o HistObs) (bool, []string) {
+	tags := map[string]bool{fmt.Sprintf("default:%v", c.Default): true, "ops:" + Bucket(len(c.Ops)): true}
+	nontrivial := false
+
+	for i, op := range c.Ops {
+		acc := i < len(o.Ops) && o.Ops[i]
+		tags[fmt.Sprintf("op:%s:%v", op.Kind, acc)] = true
+
+		if op.Kind == "update" && acc {
+			for _, e := range op.Edits {
+				tags["update-edit:"+string(e)] = true
+			}
+
+			if i < len(o.Same) {
+				for j := range o.Same[i] {
+					if o.Same[i][j] && !o.Equal[i][j] {
+						nontrivial = true // an accepted update that changes an existing rule
+						tags["update:changes-existing-rule"] = true
+					}
+				}
+			}
+		}
+	}
+
+	for _, l := range o.Lookups {
+		tags["outcome:"+strings.SplitN(l, ":", 2)[0]] = true
+	}
+
+	if o.Panic != "" {
+		tags["panic"] = true
+	}
+
+	out := make([]string, 0, len(tags))
+	for t := range tags {
+		out = append(out, t)
+	}
+
+	return nontrivial, out
+}
+
+func HistCorpus() []HistCase {
+	a := func(id int, bt bool, ver int, methods []string, routes ...string) Rule {
+		ru := mkRule(id, bt, methods, routes...)
+		ru.Ver = ver
+
+		return ru
+	}
+	lk := func(path, method string, ok ...int) RepoLookup {
+		return RepoLookup{Path: path, Method: method, OK: ok}
+	}
+
+	fill := func(cs []HistCase) []HistCase {
+		for i := range cs {
+			methods := map[int][]string{}
+			maxID := 0
+
+			for _, op := range cs[i].Ops {
+				for _, ru := range op.Rules {
+					methods[ru.ID] = ru.Methods
+					if ru.ID > maxID {
+						maxID = ru.ID
+					}
+				}
+			}
+
+			for j := range cs[i].Lookups {
+				l := &cs[i].Lookups[j]
+				l.OK = []int{}
+
+				for id := 1; id <= maxID; id++ {
+					if methodOK(methods[id], l.Method) {
+						l.OK = append(l.OK, id)
+					}
+				}
+			}
+		}
+
+		return cs
+	}
+
+	return fill([]HistCase{
+		{ // C02-F3 (= C06-F1): only A's definition changes; A is re-appended behind its sibling B
+			Default: false,
+			Ops: []HistOp{
+				{Kind: "create", Src: 1, Rules: []Rule{a(1, true, 0, nil, "/x"), a(2, true, 0, nil, "/x")}},
+				{Kind: "update", Src: 1, Rules: []Rule{a(1, true, 1, nil, "/x"), a(2, true, 0, nil, "/x")}, Edits: "V"},
+			},
+			Lookups: []RepoLookup{lk("/x", "GET", 1, 2), lk("/x", "GET", 2), lk("/y", "GET", 1, 2)},
+		},
+		{ // a pure reordering is ignored by the update
+			Default: true,
+			Ops: []HistOp{
+				{Kind: "create", Src: 1, Rules: []Rule{a(1, true, 0, nil, "/x"), a(2, true, 0, nil, "/x"), a(3, true, 0, nil, "/z")}},
+				{Kind: "update", Src: 1, Rules: []Rule{a(2, true, 0, nil, "/x"), a(1, true, 0, nil, "/x"), a(3, true, 0, nil, "/z")}, Edits: "S"},
+			},
+			Lookups: []RepoLookup{lk("/x", "GET", 1, 2, 3), lk("/z", "GET", 1, 2, 3), lk("/q", "GET", 1, 2, 3)},
+		},
+		{ // history-dependent flag (C06-F2 / C02-F2) and delete + re-create
+			Default: false,
+			Ops: []HistOp{
+				{Kind: "create", Src: 1, Rules: []Rule{a(1, true, 0, []string{"POST"}, "/y"), a(2, false, 0, []string{"PUT"}, "/y"), a(3, true, 0, nil, "/:z")}},
+				{Kind: "update", Src: 1, Rules: []Rule{a(1, true, 1, []string{"POST"}, "/y"), a(2, false, 0, []string{"PUT"}, "/y"), a(3, true, 0, nil, "/:z")}, Edits: "V"},
+				{Kind: "create", Src: 2, Rules: []Rule{a(4, true, 0, nil, "/w/:a", "/w/b")}},
+				{Kind: "delete", Src: 2},
+				{Kind: "create", Src: 3, Rules: []Rule{a(5, false, 0, nil, "/w/:a")}},
+			},
+			Lookups: []RepoLookup{lk("/y", "GET"), lk("/y", "PUT"), lk("/w/b", "GET"), lk("/w/c", "GET")},
+		},
+	})
 }
